@@ -1,1 +1,3 @@
+pub mod arb;
 pub mod prog;
+pub mod wild;
